@@ -27,6 +27,8 @@ Extra == <<
   [n |-> "mem_limit", top |-> FALSE, p |-> <<"mem_limit">>, v |-> S("1g")],
   [n |-> "shm_size", top |-> FALSE, p |-> <<"shm_size">>, v |-> S("64m")],
   [n |-> "ulimits", top |-> FALSE, p |-> <<"ulimits">>, v |-> M2("nproc", I(65535), "nofile", M2("soft", I(20000), "hard", I(40000)))],
+  [n |-> "ulimits equal", top |-> FALSE, p |-> <<"ulimits">>, v |-> M2("nofile", M2("soft", I(20000), "hard", I(20000)), "core", M2("soft", I(0), "hard", I(0)))],
+  [n |-> "depends_on optional", top |-> FALSE, p |-> <<"depends_on">>, v |-> M2("db", M3("condition", S("service_healthy"), "required", B(FALSE), "restart", B(TRUE)), "cache", M2("condition", S("service_started"), "required", B(TRUE)))],
   [n |-> "env_file", top |-> FALSE, p |-> <<"env_file">>, v |-> Sq2(S("./a.env"), M2("path", S("./b.env"), "required", B(FALSE)))],
   [n |-> "ssh default", top |-> FALSE, p |-> <<"build">>, v |-> M2("context", S("."), "ssh", Sq1(S("default")))],
   [n |-> "ssh key path", top |-> FALSE, p |-> <<"build">>, v |-> M2("context", S("."), "ssh", Sq1(S("k1=/p1")))],
